@@ -802,7 +802,13 @@ fn concurrent(tier: Tier, shard: usize, n: usize) -> Report {
 	for cand in 10..80u32 {
 		let b0 = sc.fresh("cal");
 		fill_store(&b0, cand);
+		if std::env::var("GV_DEBUG").is_ok() {
+			eprintln!("calibrating fill {}", cand);
+		}
 		let (v0, t0, _, _, _) = conc_execute(&b0, &sc, &[], cand);
+		if std::env::var("GV_DEBUG").is_ok() {
+			eprintln!("  default: {:?} steps {}", v0, t0.len());
+		}
 		let mut dead = !matches!(v0, crate::sched::Verdict::Completed);
 		let mut hit = false;
 		if !dead {
@@ -814,6 +820,9 @@ fn concurrent(tier: Tier, shard: usize, n: usize) -> Report {
 				let (v, trace, _, _, _) = conc_execute(&b0, &sc, &pre, cand);
 				dead = !matches!(v, crate::sched::Verdict::Completed);
 				hit = trace.iter().any(|s| s.what.starts_with("lmdb-resize"));
+				if std::env::var("GV_DEBUG").is_ok() {
+					eprintln!("  forcing: {:?}\n  trace tail: {:?}", v, trace.iter().rev().take(12).map(|s| s.what.clone()).collect::<Vec<_>>());
+				}
 			}
 		}
 		if hit || dead {
@@ -840,7 +849,11 @@ fn concurrent(tier: Tier, shard: usize, n: usize) -> Report {
 			rep.capped = Some(format!("execution cap {}", cap));
 			break;
 		}
+		let t_exec = std::time::Instant::now();
 		let (verdict, trace, panics, obs, final_ok) = conc_execute(&base, &sc, &prefix, fill);
+		if std::env::var("GV_DEBUG").is_ok() {
+			eprintln!("exec {} prefix_len {} -> {:?} steps {} in {:?}", rep.evaluations, prefix.len(), std::mem::discriminant(&verdict), trace.len(), t_exec.elapsed());
+		}
 		rep.evaluations += 1;
 		rep.distinct += 1;
 		rep.states += 1;
